@@ -48,7 +48,7 @@ E1 = {
 
 E1_RULE = {
     "C01": "cases = op histories (bounded-exhaustive depth<=D from 16 start states with every drop order of <=3 survivors, plus seeded short histories of 3-6 ops from a start state and random walks of 30-150 ops); after every op every live handle is compared with its Vec<u8> model. A cell = (handle type | backing representation incl. refcount class | op | argument class | outcome); cells of pure drop ops are not counted.",
-    "C02": "same histories with out-of-contract arguments mixed in (1/4 of ops), run on the ledger allocator (red zones, poison+quarantine, layout-exact free, address-range check of every handle after every op; even/odd/mixed address parity), under ASan, Miri and (thorough) valgrind. Cells as in C01 plus OOC|repr|variant|outcome.",
+    "C02": "same histories with out-of-contract arguments mixed in (1/4 of ops), run on the ledger allocator (red zones, poison+quarantine, layout-exact free, address-range check of every handle after every op; even/odd/mixed address parity), under ASan, Miri and (thorough) valgrind. The Buf/BufMut side (raw copies of put_slice/copy_to_slice, UninitSlice, chunk_mut of Vec/BytesMut, Take::chunks_vectored, io::Cursor arithmetic) is driven by the reader/writer/cursor conformance engines under ASan, the ledger (guard bytes around fixed targets) and (thorough) valgrind; only memory findings of those runs belong to C02. Cells as in C01 plus OOC|repr|variant|outcome.",
     "C03": "same histories; at the end of each history survivors are dropped (every order for <=3 survivors in the exhaustive part) and the ledger balance of blocks allocated during the history must be 0; refcount conservation (stored count == live handles per control block, via H2) and owner as_ref/drop counters checked after every op; LSan and Miri leak checks on the same workload.",
     "C04": "BytesMut-centred histories; after every op all BytesMut regions [ptr,ptr+cap) are checked pairwise disjoint, disjoint from every live Bytes, and contained in one live ledger block; reserve/try_reclaim postconditions with boundary arguments (0, spare+-1, alloc-len(+1), alloc, 2*alloc+1); periodic write probes fill spare capacity and re-compare every other handle; unrepresentable requests (usize::MAX-len-k, isize::MAX+1+k) must panic / answer false; 144 abort-class requests (2^41 .. isize::MAX-len, one child process each) must panic or die of allocation failure, never return. Cells as in C01.",
     "C07": "same histories; each zero-copy op asserts result address == source address + logical offset (also for empty split parts) and that the ledger saw no align-1 allocation during the call. Cells as in C01.",
@@ -125,6 +125,20 @@ def e1_jobs(prop, tier, seed):
             for op in range(4):
                 for cls in range(6):
                     jobs.append(Job(f"single:{st}:{op}:{cls}", [exe, "single", "--start", str(st), "--op", str(op), "--arg", str(cls)], build="rel", crash="violation" if prop == "C13" else "inconclusive", abort_ok=True, timeout=120))
+    # C02 also covers the unsafe code behind Buf / BufMut (raw copies in put_slice / copy_to_slice, UninitSlice,
+    # Vec::chunk_mut, the Take::chunks_vectored transmute): the conformance engines run under the memory oracles;
+    # only memory findings are owned here (sanitizer reports, ledger violations, guard bytes around fixed targets)
+    if prop == "C02":
+        cnt = "8000" if quick else "300000"
+        cap = [] if quick else ["--secs", "300"]
+        noleak = dict(ASAN_ENV, ASAN_OPTIONS=ASAN_ENV["ASAN_OPTIONS"].replace("detect_leaks=1", "detect_leaks=0"))  # these engines leak 'static test data on purpose
+        jobs += buf_jobs("rel", "writers", seed + 21, n // 2, ["--count", cnt] + cap, "buf-wr-rel", crash=crash)
+        jobs += buf_jobs("asan-rel", "writers", seed + 22, n // 2, ["--count", cnt] + cap, "buf-wr-asan", kind="asan", env=noleak, crash=crash, parity=False)
+        jobs += buf_jobs("asan-rel", "readers", seed + 23, n // 2, ["--count", cnt] + cap, "buf-rd-asan", kind="asan", env=noleak, crash=crash, parity=False)
+        jobs += buf_jobs("asan-rel", "cursors", seed, 4, [], "buf-curs-asan", kind="asan", env=noleak, crash=crash, parity=False)
+        if not quick:
+            jobs += buf_valgrind("readers", seed + 24, 8, ["--count", "20000"], "buf-rd-valgrind", crash=crash)
+            jobs += buf_valgrind("writers", seed + 25, 8, ["--count", "20000"], "buf-wr-valgrind", crash=crash)
     # valgrind memcheck on the plain release binary (thorough, C02 only)
     if prop == "C02" and not quick:
         build("relsys", ["seqdrive"])
